@@ -26,7 +26,7 @@ def build_event_classes(parents: list[list[int]], n: int) -> list[type]:
     def make(i: int) -> type:
         if i not in classes:
             base = make(par[i]) if i in par else Event
-            classes[i] = type(f"Ev{i}", (base,), {})
+            classes[i] = type("Ev", (base,), {})      # (made by one factory: one qualified name for all of them)
         return classes[i]
 
     return [make(i) for i in range(n)]
